@@ -32,7 +32,7 @@ ASSUMPTIONS = [
 ]
 ALL_TYPES = sorted(set(ALL_IN_TYPES) | {f"OUT:{t}" for t in OUT_TYPES} | {"MOVE:fee", "MOVE:no-fee", "MOVE:self"})
 SETTINGS: Dict[str, Dict[str, Any]] = {
-    "quick": {"cases": 3000, "cli_cases": 64, "budget_s": 45, "minimums": {"corpus_runs": 100, "events_checked": 8000, "nontrivial": 500, "cli_runs": 6}, "required_tags": {"tag_types": ALL_TYPES}},
+    "quick": {"cases": 3000, "cli_cases": 64, "budget_s": 45, "minimums": {"corpus_runs": 100, "window_runs": 1000, "events_checked": 8000, "nontrivial": 500, "cli_runs": 6}, "required_tags": {"tag_types": ALL_TYPES}},
     "thorough": {"cases": 100000, "cli_cases": 200, "budget_s": 300, "minimums": {"corpus_runs": 100, "events_checked": 300000, "nontrivial": 20000, "cli_runs": 100}, "required_tags": {"tag_types": ALL_TYPES}},
 }
 
@@ -81,7 +81,44 @@ def _observe(ctx: Any, ip: Any, hist: Dict[str, Any], sched: Dict[int, str], pro
         ctx.violation(v["rule"], v["detail"], case)
     for k in known:
         ctx.violation(k["rule"], k["detail"], case, mechanism="KF4")
+    if not probe:
+        _observe_window(ctx, ip, hist, sched, model, types)
     return bool(known)
+
+
+def _observe_window(ctx: Any, ip: Any, hist: Dict[str, Any], sched: Dict[int, str], model: Model, types: Dict[int, str]) -> None:
+    """The same history seen through a date window: the taxable events reported are exactly those whose own date lies in it
+    (none dropped, none duplicated, none under another type)."""
+    import random as _random
+    from datetime import date as _date
+
+    from rpv.checks.inproc_util import candidate_days, clean_cut
+
+    rng = _random.Random(len(hist["rows"]) * 7919 + sum(r["row"] for r in hist["rows"]))
+    days = sorted(candidate_days(rng, hist, 6))
+    clean = [d for d in days if clean_cut(hist, d)]
+    if not days or not clean:
+        return
+    to_d = rng.choice(clean) if rng.random() < 0.7 else None
+    lower = [d for d in days if to_d is None or d <= to_d]
+    from_d = rng.choice(lower) if lower and rng.random() < 0.8 else None
+    if from_d is None and to_d is None:
+        return
+    res = ip.run(hist, sched, from_date=from_d, to_date=to_d)
+    ctx.count("executions")
+    if not res.ok:
+        ctx.count("window_runs_unobservable")
+        return
+    lo, hi = from_d or _date(1970, 1, 1), to_d or _date(9999, 12, 31)
+    expected = sorted(row for row, e in model.events.items() if lo <= e.ts.date() <= hi and row not in model.tiny_fee_transfers)
+    got = sorted(t.row for t in res.computed.taxable_event_set if t.row not in model.tiny_fee_transfers)
+    ctx.count("window_runs")
+    ctx.count("window_events_checked", len(expected))
+    if got != expected:
+        ctx.violation("taxable.window-events", {"window": [str(from_d), str(to_d)], "missing": [r for r in expected if r not in got][:5], "unexpected": [r for r in got if r not in expected][:5], "duplicates": len(got) != len(set(got))}, {"hist": hist, "schedule": sched_json(sched), "window": [from_d.isoformat() if from_d else None, to_d.isoformat() if to_d else None]})
+    wrong_type = [t.row for t in res.computed.taxable_event_set if types.get(t.row) and t.transaction_type.value.upper() != types[t.row]]
+    if wrong_type:
+        ctx.violation("taxable.window-type-differs", {"events": wrong_type[:5]}, {"hist": hist, "schedule": sched_json(sched)})
 
 
 def kf4_reproducer() -> Dict[str, Any]:
